@@ -13,6 +13,15 @@ NEG = {ast.Eq: ast.NotEq, ast.NotEq: ast.Eq, ast.Lt: ast.GtE, ast.GtE: ast.Lt, a
 CONSUMERS = {"tuple", "frozenset", "set", "sum", "any", "all", "sorted", "min", "max", "dict"}
 
 
+def _as_load(t):
+    import copy
+    t = copy.deepcopy(t)
+    for n in ast.walk(t):
+        if hasattr(n, "ctx"):
+            n.ctx = ast.Load()
+    return t
+
+
 def _always_exits(block) -> bool:
     """Every path through the block ends in return / raise / break / continue."""
     if not block:
@@ -68,6 +77,11 @@ class Canon(ast.NodeTransformer):
             self.generic_visit(node)
         if len(node.ops) != 1:
             return node
+        # x in d.keys()  ==  x in d   (only mappings have .keys())
+        c0 = node.comparators[0]
+        if isinstance(node.ops[0], (ast.In, ast.NotIn)) and isinstance(c0, ast.Call) and isinstance(c0.func, ast.Attribute) and c0.func.attr == "keys" \
+                and not c0.args and not c0.keywords:
+            node.comparators = [c0.func.value]
         op = type(node.ops[0])
         l, r = node.left, node.comparators[0]
         if op in (ast.Gt, ast.GtE):
@@ -101,6 +115,12 @@ class Canon(ast.NodeTransformer):
             has = ast.copy_location(ast.Call(func=ast.Name(id="hasattr", ctx=ast.Load()), args=[node.args[0], node.args[1]], keywords=[]), node)
             return ast.copy_location(ast.IfExp(test=has, body=attr, orelse=node.args[2]), node)
         fn = node.func.id if isinstance(node.func, ast.Name) else None
+        # an identity comprehension is its iterable:  tuple([(k, v) for k, v in d.items()])  ==  tuple(d.items())
+        if (fn in CONSUMERS or fn == "list") and len(node.args) == 1 and not node.keywords and isinstance(node.args[0], (ast.ListComp, ast.GeneratorExp)):
+            lc = node.args[0]
+            if len(lc.generators) == 1 and not lc.generators[0].ifs and not lc.generators[0].is_async and ast.dump(lc.elt) == ast.dump(_as_load(lc.generators[0].target)):
+                node.args[0] = lc.generators[0].iter
+                return node
         # a list comprehension that is consumed at once is a generator expression
         if (fn in CONSUMERS or (isinstance(node.func, ast.Attribute) and node.func.attr == "join")) and node.args and isinstance(node.args[0], ast.ListComp):
             lc = node.args[0]
